@@ -529,8 +529,13 @@ func (cs *ContractSet) parseFile(file, relDir string) error {
 			switch s.kw {
 			case "func":
 				cur.FullKey = qualifyKey(key, pkgName)
-				if _, dup := cs.Funcs[cur.FullKey]; dup {
-					return fmt.Errorf("%s:%d: duplicate contract for %s", file, s.line, cur.FullKey)
+				if prev, dup := cs.Funcs[cur.FullKey]; dup {
+					// several blocks for one function are merged (one block per property reads better)
+					if len(prev.Results) == 0 {
+						prev.Results = cur.Results
+					}
+					cur = prev
+					continue
 				}
 				cs.Funcs[cur.FullKey] = cur
 			case "extern":
